@@ -185,7 +185,7 @@ def op_text_file(t):
         res = {}
         if t.get('read', True):
             res = _read(path, compression, int(t.get('start', 0)), int(t.get('step', 1)))
-        if t.get('count_jobs') and compression == 'gzip':
+        if t.get('count_jobs') is not None and compression == 'gzip':
             res['count'] = _count(path, int(t['count_jobs']))
         return res
     finally:
